@@ -88,7 +88,7 @@ CHECKS = {
     "C07": dict(
         text="Machine-checked Coq theorems over an executable Gallina mirror of every Serializer::data, Frame::parse and "
              "Bitfield::{from_vec,to_vec}: layout equals the independently written BEP3 relation, parse(encode m ++ rest) "
-             "= (m, |encode m|) for all field values in range, bit i <-> bit (7 - i mod 8) of byte i/8 in both directions, "
+             "= (m, |encode m|) for all field values in range (hence the encoding is prefix-free and streams decode uniquely), bit i <-> bit (7 - i mod 8) of byte i/8 in both directions, "
              "for all sizes. Constants are regenerated from the source each run; the hand-written model is tied to the "
              "code by differential execution with the spec oracle applied to the implementation's output.",
         note="Trusted: Coq kernel; gen_consts.py; the correspondence (generators, harness, in-Coq comparison); the model is "
